@@ -35,7 +35,9 @@ type token struct {
 // Error is an SQL error raised by the simulator.
 type Error struct {
 	// Class: syntax (the simulator cannot parse: harness limit or broken
-	// statement), undefined (unknown table / column / type / function),
+	// statement), invalid (text that is certainly not valid PostgreSQL:
+	// unterminated literals, empty column or VALUES lists, a single-column
+	// parenthesised SET without ROW), undefined (unknown table / column / type / function),
 	// params (placeholder numbering / arity), type (value does not fit the
 	// column type), constraint (NOT NULL / CHECK / UNIQUE / FOREIGN KEY),
 	// fault (injected), state
@@ -54,6 +56,14 @@ func (e *Error) Error() string {
 
 func errf(class, format string, a ...any) *Error {
 	return &Error{Class: class, Msg: fmt.Sprintf(format, a...)}
+}
+
+func clipWord(s string) string {
+	j := 0
+	for j < len(s) && j < 20 && isIdentPart(s[j]) {
+		j++
+	}
+	return s[:j]
 }
 
 func isIdentStart(c byte) bool {
@@ -80,7 +90,7 @@ func lex(src string) ([]token, *Error) {
 		case c == '/' && i+1 < n && src[i+1] == '*':
 			j := strings.Index(src[i+2:], "*/")
 			if j < 0 {
-				return nil, errf("syntax", "unterminated comment")
+				return nil, errf("invalid", "unterminated /* comment")
 			}
 			i += j + 4
 		case isIdentStart(c):
@@ -102,7 +112,7 @@ func lex(src string) ([]token, *Error) {
 			var b strings.Builder
 			for {
 				if j >= n {
-					return nil, errf("syntax", "unterminated quoted identifier")
+					return nil, errf("invalid", "unterminated quoted identifier")
 				}
 				if src[j] == '"' {
 					if j+1 < n && src[j+1] == '"' {
@@ -122,7 +132,7 @@ func lex(src string) ([]token, *Error) {
 			var b strings.Builder
 			for {
 				if j >= n {
-					return nil, errf("syntax", "unterminated string literal")
+					return nil, errf("invalid", "unterminated quoted string")
 				}
 				if src[j] == '\'' {
 					if j+1 < n && src[j+1] == '\'' {
@@ -137,6 +147,11 @@ func lex(src string) ([]token, *Error) {
 			}
 			toks = append(toks, token{kind: tString, text: b.String(), pos: i})
 			i = j + 1
+			if i < n && isIdentStart(src[i]) {
+				// 'de'luxe: a literal running straight into a word is never valid
+				// SQL - the sign of a quote that was not doubled
+				return nil, errf("invalid", "syntax error at or near %q: a string literal is directly followed by a word (unescaped quote?)", clipWord(src[i:]))
+			}
 		case c == '$':
 			if i+1 < n && src[i+1] >= '0' && src[i+1] <= '9' {
 				j := i + 1
@@ -156,7 +171,7 @@ func lex(src string) ([]token, *Error) {
 				tag := src[i : j+1]
 				end := strings.Index(src[j+1:], tag)
 				if end < 0 {
-					return nil, errf("syntax", "unterminated dollar-quoted string")
+					return nil, errf("invalid", "unterminated dollar-quoted string")
 				}
 				toks = append(toks, token{kind: tDollar, text: src[j+1 : j+1+end], pos: i})
 				i = j + 1 + end + len(tag)
